@@ -225,7 +225,8 @@ def check_forwarder(ctx, rule, key, fn, callee, arg_checks, wrappers=("Result::m
 def closure_paths(ctx, clo):
     """Paths of a closure body with its captured variables replaced by the expressions the
     parent put into the closure aggregate.  `clo` = ('agg','closure',id,ops).  The closure's own
-    parameters stay ('param', i) with i >= 2 (param 1 is the environment)."""
+    parameters are renamed to ('cparam', i), i >= 2 (param 1 is the environment), so that they
+    cannot be confused with the parent's parameters occurring in the substituted captures."""
     from .sym import subst_params, Path
     fn = ctx.F.fns.get(clo[2])
     if fn is None:
@@ -235,6 +236,8 @@ def closure_paths(ctx, clo):
     for i, cap in enumerate(fn.captures):
         if i < len(clo[3]):
             mapping[("upvar", cap["var"], i)] = clo[3][i]
+    for i in range(1, fn.argc + 1):
+        mapping[("param", i)] = ("cparam", i, fn.id)
     out = []
     for p in ctx.paths(fn):
         memo = {}
@@ -247,3 +250,19 @@ def closure_paths(ctx, clo):
         out.append(Path([(subst_params(c[0], mapping, memo), c[1], c[2]) for c in p.conds], ev,
                         subst_params(p.ret, mapping, memo) if p.ret is not None else None, p.end, p.blocks))
     return out
+
+
+def is_conversion_fn(ctx, e):
+    """the function value is Into::into / From::from, or a closure whose body just converts its argument"""
+    if e[0] == "fnitem":
+        return path_ends(e[1], "Into::into") or path_ends(e[1], "From::from")
+    if e[0] == "agg" and e[1] == "closure":
+        cps = closure_paths(ctx, e)
+        if not cps:
+            return False
+        rets = [p for p in cps if p.end != "unreachable"]
+        if len(rets) != 1 or rets[0].end != "return":
+            return False
+        r = rets[0].ret
+        return callee_is(r, "Into::into", "From::from") and len(r[3]) == 1 and r[3][0][:2] == ("cparam", 2) and len(rets[0].calls()) == 1
+    return False
